@@ -21,7 +21,7 @@ RULE = ("run = 6-40 generator invocations (CLI after restart; manual entry point
 
 
 def n_fixed(tier):
-    return 5
+    return 7
 
 
 def fixed_specs(tier, ctx):
@@ -37,6 +37,11 @@ def fixed_specs(tier, ctx):
         for k in range(1, 100):
             opl.append({"op": "gen_manual", "board": dict(b, **{key: k / 100})})
     specs.append({"cfg": {"klass": "sweep-manual"}, "ops": opl})
+    # the same sweep inside a process whose other tenants changed the decimal context
+    for mode in ("ROUND_DOWN", "ROUND_CEILING"):
+        specs.append({"cfg": {"klass": "sweep-ambient-" + mode},
+                      "ops": [{"op": "gen_cli", "params": dict(base, rb=k / 100, lt=((k * 7) % 99 + 1) / 100), "same_process": True,
+                               "env": {"ambient": {"decimal_rounding": mode, "decimal_prec": 28}}} for k in range(1, 100)]})
     return specs
 
 
@@ -82,7 +87,7 @@ def gen(rng, tier, ctx):
         elif m < 0.87:
             p["force_down"] = not p["force_down"]
         elif m < 0.93:
-            p["max_reward"] = rng.choice([1, 6, 16, p["width"], p["length"], 1022, 1023, 1074, 1075, 5000, 2 ** 63,
+            p["max_reward"] = rng.choice([1, 6, 16, p["width"], p["length"], 1022, 1023, 1074, 1075, 5000, 2 ** 63, 2 ** 53 + 1, 2 ** 63 + 1, 10 ** 17 + 1,
                                           p["max_reward"] + 1, p["max_reward"] * 10])
         else:
             # swap two probabilities: the name must tell which is which
@@ -101,7 +106,7 @@ def gen(rng, tier, ctx):
             op["fs_faults"] = [{"on": rng.choice(["write", "write", "close", "open"]), "mode": "w", "nth": rng.randint(1, 8),
                                 "errno": rng.choice(["ENOSPC", "EIO", "EACCES"]), "partial": rng.choice([0, 0.5])}]
         opl.append(op)
-    return {"cfg": {"klass": "plain"}, "ops": opl}
+    return {"cfg": {"klass": "marathon", "fd_spare": 48} if marathon else {"klass": "plain"}, "ops": opl}
 
 
 def readable(spec):
